@@ -104,6 +104,11 @@ class Builder:
 
 def rand_lp(rng, token=None, allow_token_on=False):
     hdr = [h for h in LP_HDRS if rng.random() < 0.3]
+    rep = [h for h in hdr if h[0] in (0x0344, 0x0354, 0x0384, 0x03a0)]
+    if rep and rng.random() < 0.3:
+        # Ack is repeatable, and nothing forbids two unknown ignorable headers of one type
+        h = rng.choice(rep)
+        hdr += [(h[0], h[1][:-2] + '0a' if h[1] else '')] * rng.randint(1, 2)
     hdr.sort(key=lambda x: x[0])
     lp = {'hdr': [[t, v] for t, v in hdr]}
     if token is not None:
@@ -287,6 +292,8 @@ def add_consumer_side(b, rng, fe, n_int, focus='c03', lp_prob=0.1, transparent=F
             kw['param_obj'] = True
         if rng.random() < 0.35:
             kw['mbf'] = True
+        if fe == 'v1' and rng.random() < 0.25:
+            kw['need_raw'] = True           # the caller asks for the received packet as well (a fourth result)
         if rec.get('app_param') is not None and rng.random() < 0.3:
             # the caller positions the parameters digest itself with a placeholder component (at the end or inside the name)
             kw['placeholder'] = rng.choice(['end', 'mid'])
@@ -313,6 +320,9 @@ def add_noise(b, rng, ints, horizon):
     x = rng.random()
     if x < 0.08:
         ts = rng.randint(1000, horizon)
+        rxs = [o for o in b.ops if o['op'] == 'rx']
+        if rxs and rng.random() < 0.3:
+            ts = rng.choice(rxs)['at']      # in the very instant in which bytes arrive
         b.op(ts, 'shutdown')
         if ints and rng.random() < 0.5:
             # ... and, in the same instant, the caller gives up one of its Interests
@@ -323,6 +333,13 @@ def add_noise(b, rng, ints, horizon):
         b.faults += 1
     if rng.random() < 0.05:
         b.op(rng.randint(1000, horizon), 'wall_jump', delta_ms=rng.choice([-5000, -50, -1, 1, 50, 5000]))
+        b.faults += 1
+    late = [o for o in b.ops if o['op'] == 'express' and (o.get('await_delay_us') or 0) >= 1000]
+    if late and rng.random() < 0.25:
+        # the system clock is stepped while an Interest is out and its caller has not started to wait yet
+        o = rng.choice(late)
+        b.op(o['at'] + rng.randint(1, o['await_delay_us'] - 1), 'wall_jump',
+             delta_ms=rng.choice([-5000, -400, -50, -20, 20, 50, 400, 5000]))
         b.faults += 1
 
 
@@ -362,6 +379,10 @@ def add_producer_side(b, rng, fe, focus='c04', tokens=False, lp_prob=0.1, transp
         else:
             pfx = rand_name(rng, alphabet, 0 if rng.random() < 0.1 else 1, 3)
         prefixes.append(pfx)
+    if rng.random() < 0.08:
+        # a prefix that ends in an implicit digest component (a handler for one particular packet)
+        k0 = rng.randrange(len(prefixes))
+        prefixes[k0] = prefixes[k0] + ['1=~rep:32:ab']
     t = 1000
     attached = []
     n_ops = rng.randint(n_pfx, n_pfx + 10)
@@ -426,6 +447,8 @@ def add_producer_side(b, rng, fe, focus='c04', tokens=False, lp_prob=0.1, transp
                 elif z < 0.75:
                     spec['sig'] = rng.choice(['digest', 'hmac', 'digest'])
                     spec['app_param'] = rng.choice([0, 5, 260])
+                    if rng.random() < 0.12:
+                        spec['no_sigvalue'] = True      # SignatureInfo without SignatureValue: still a signed Interest
                 if ('app_param' in spec) and rng.random() < 0.3:
                     spec['bad_digest'] = True
                 elif ('app_param' in spec) and genuine and rng.random() < 0.3:
@@ -724,6 +747,12 @@ def gen_c06(rng, seed, tier='quick'):
         if rng.random() < 0.9:
             b.rx(t, hd['int_pid'])
             t += rng.choice([0, 1, 1000])
+    if rng.random() < 0.08:
+        # the application shuts the face down in the very instant in which bytes arrive (or one loop step later)
+        rxs = [o for o in b.ops if o['op'] == 'rx']
+        if rxs:
+            b.op(rng.choice(rxs)['at'] + rng.choice([0, 0, 1]), 'shutdown')
+            b.faults += 1
     return b.scenario(seed, 'C06', **extra)
 
 
